@@ -28,8 +28,8 @@ func init() { register("C15", checkC15) }
 // function that allocates the object is immutable after publication; any other
 // field of a shared type is reported as "unclassified mutable shared field".
 var guardTable = map[string]string{
-	"reservoir/cache.MemoryCache.entries":         "guard:F:reservoir/cache.MemoryCache.mu",
-	"reservoir/cache.FileCache.entriesMetadata":   "guard:F:reservoir/cache.FileCache.mu",
+	"reservoir/cache.MemoryCache.entries":       "guard:F:reservoir/cache.MemoryCache.mu",
+	"reservoir/cache.FileCache.entriesMetadata": "guard:F:reservoir/cache.FileCache.mu",
 	// two-lock discipline: written with the key's shard lock AND the backend's map lock held exclusively, read with
 	// either of them (the janitor's snapshot copies the metadata under the map read lock, requests read under the key lock)
 	"reservoir/cache.EntryMetadata.LastAccess":    "guard:S+MAP",
@@ -216,7 +216,15 @@ type cuse struct {
 func containerUses(v *ssa.UnOp) []cuse { return containerUsesOf(v) }
 
 // containerUsesOf does the same for any SSA value holding the container (a loaded field, a parameter).
-func containerUsesOf(v ssa.Value) []cuse {
+func containerUsesOf(v ssa.Value) []cuse { return containerUsesD(v, 0) }
+
+// aliasLI: the lock/call information of the run, for following a container that a function hands back to its callers.
+var aliasLI *LockInfo
+
+// aliasKeeping: library functions whose result shares the backing array of their slice argument.
+var aliasKeeping = map[string]bool{"slices.Clip": true, "slices.Grow": true}
+
+func containerUsesD(v ssa.Value, depth int) []cuse {
 	switch v.Type().Underlying().(type) {
 	case *types.Map, *types.Slice:
 	default:
@@ -227,7 +235,50 @@ func containerUsesOf(v ssa.Value) []cuse {
 		return nil
 	}
 	var out []cuse
+	// the same container under another name: a re-slice, the result of a function that keeps the backing array, a
+	// merge, or the value a function returns to its callers — its uses are uses of the container
+	follow := func(alias ssa.Value) {
+		if depth < 3 && alias != nil {
+			out = append(out, containerUsesD(alias, depth+1)...)
+		}
+	}
 	for _, ref := range *refs {
+		switch r := ref.(type) {
+		case *ssa.Phi:
+			follow(r)
+		case *ssa.Store:
+			// kept in a local variable (a result spilled around deferred calls): every later read of it
+			if cell, isA := r.Addr.(*ssa.Alloc); isA && r.Val == v && depth < 3 {
+				if crefs := cell.Referrers(); crefs != nil {
+					for _, cr := range *crefs {
+						if ld, isLd := cr.(*ssa.UnOp); isLd && ld.Op == token.MUL {
+							follow(ld)
+						}
+					}
+				}
+			}
+		case *ssa.Return:
+			if aliasLI == nil || depth >= 3 {
+				break
+			}
+			idx := -1
+			for i, rv := range r.Results {
+				if rv == v {
+					idx = i
+				}
+			}
+			for _, cs := range aliasLI.Callers[r.Parent()] {
+				call, isC := cs.in.(*ssa.Call)
+				if !isC || idx < 0 {
+					continue
+				}
+				if len(r.Results) == 1 {
+					follow(call)
+				} else if ex := extractOf(call, idx); ex != nil {
+					follow(ex)
+				}
+			}
+		}
 		switch r := ref.(type) {
 		case *ssa.MapUpdate:
 			if r.Map == ssa.Value(v) {
@@ -256,6 +307,7 @@ func containerUsesOf(v ssa.Value) []cuse {
 			out = append(out, cuse{r, w, "element access"})
 		case *ssa.Slice:
 			out = append(out, cuse{r, false, "slice expression"})
+			follow(r)
 		case *ssa.Call:
 			if b, ok := r.Call.Value.(*ssa.Builtin); ok {
 				switch b.Name() {
@@ -270,6 +322,9 @@ func containerUsesOf(v ssa.Value) []cuse {
 				}
 			} else {
 				out = append(out, cuse{r, false, "passed to " + calleeName(r)})
+				if aliasKeeping[calleeName(r)] && len(r.Call.Args) > 0 && r.Call.Args[0] == v {
+					follow(r)
+				}
 			}
 		default:
 			out = append(out, cuse{ref, false, "use"})
@@ -338,6 +393,7 @@ func checkC15(c *Ctx, r *Report) {
 			ctxOf[fnKey(f)] = strings.Join(cs, "+")
 		}
 	}
+	aliasLI = li
 	acc := collectAccesses(li.Fns, shared)
 	if liveEscapes == 0 {
 		// Every metadata pointer handed out of package cache is a private copy made under
